@@ -1323,6 +1323,74 @@ fn cover_t<T: Num>(c: &mut Case, sc: &Scen) {
     }
 }
 
+/// Cover trees over data whose pairwise distances span many decades (one level per factor 1.3): the serialised tree is
+/// as deeply nested as the tree itself. Rows: one feature, log-uniform over `decades` decades, optionally a second
+/// feature of ordinary scale·1e-12. The nesting depth of the JSON document is recorded (serde_json reads at most 128
+/// levels by default); both formats have to bring the tree back, and queries have to give the same neighbours.
+fn cover_deep(c: &mut Case) {
+    let n = c.rng.us(60, 260);
+    let decades = c.rng.uni(3.0, 8.5);
+    let rows: Vec<Vec<f64>> = (0..n).map(|_| vec![10f64.powf(c.rng.uni(-decades / 2.0, decades / 2.0)) * if c.rng.bool(0.5) { 1.0 } else { -1.0 }]).collect();
+    c.describe(json!({"type": "CoverTree", "rows(1-D, log-uniform)": rows.len(), "decades": decades, "first_rows": rows.iter().take(12).collect::<Vec<_>>()}));
+    for r in &rows {
+        c.hash_f64s(r);
+    }
+    c.nontrivial();
+    let tree = match c.must("CoverTree::new", || CoverTree::new(rows.clone(), Euclidian {})) {
+        Some(Ok(t)) => t,
+        Some(Err(e)) => {
+            c.check("fit.ok", false, "CoverTree/deep", || format!("CoverTree::new returned Err({})", e));
+            return;
+        }
+        None => return,
+    };
+    let js = match serde_json::to_string(&tree) {
+        Ok(s) => s,
+        Err(e) => {
+            c.check("json.serialize-ok", false, "CoverTree/deep", || format!("{}", e));
+            return;
+        }
+    };
+    let (mut depth, mut maxd) = (0usize, 0usize);
+    for b in js.bytes() {
+        match b {
+            b'{' | b'[' => {
+                depth += 1;
+                maxd = maxd.max(depth);
+            }
+            b'}' | b']' => depth = depth.saturating_sub(1),
+            _ => {}
+        }
+    }
+    c.bucket(&format!("cover-tree-json-nesting:{}", match maxd { 0..=32 => "<=32", 33..=64 => "33..64", 65..=96 => "65..96", 97..=127 => "97..127", _ => ">=128" }));
+    let queries: Vec<Vec<f64>> = (0..6).map(|_| vec![10f64.powf(c.rng.uni(-decades / 2.0, decades / 2.0))]).collect();
+    let outs = |t: &CoverTree<Vec<f64>, f64, Euclidian>| -> Vec<f64> { queries.iter().flat_map(|q| t.find(q, 3.min(n)).map(|v| v.iter().map(|e| e.1).collect::<Vec<f64>>()).unwrap_or_default()).collect() };
+    let o0 = outs(&tree);
+    let sg = format!("CoverTree/deep/nesting{}", if maxd >= 128 { ">=128" } else { "<128" });
+    match serde_json::from_str::<CoverTree<Vec<f64>, f64, Euclidian>>(&js) {
+        Ok(t2) => {
+            c.check("json.deserialize-ok", true, &sg, String::new);
+            // JSON text does not reproduce every float exactly (up to 1 ulp per coordinate): distances within 8 ulps
+            let o2 = outs(&t2);
+            // (a distance |q − x| inherits the absolute error of the coordinates, i.e. ulps of the largest coordinate)
+            let big = rows.iter().map(|r| r[0].abs()).fold(0.0f64, f64::max);
+            let same = o2.len() == o0.len() && o2.iter().zip(o0.iter()).all(|(a, b)| a == b || (a - b).abs() <= 8.0 * f64::EPSILON * (big + a.abs().max(b.abs())));
+            c.check("json.outputs", same, &sg, || format!("restored tree returns other neighbour distances: {:?} vs {:?}", o2, o0));
+        }
+        Err(e) => {
+            c.check("json.deserialize-ok", false, &sg, || format!("a cover tree over {} rows spanning {:.1} decades serialises to a document nested {} levels deep that cannot be read back: {}", n, decades, maxd, e));
+        }
+    }
+    match bincode::serialize(&tree).map_err(|e| e.to_string()).and_then(|b| bincode::deserialize::<CoverTree<Vec<f64>, f64, Euclidian>>(&b).map_err(|e| e.to_string())) {
+        Ok(t2) => {
+            c.check("bincode.outputs-bit-identical", outs(&t2) == o0, &sg, || "restored tree returns other neighbour distances".to_string());
+        }
+        Err(e) => {
+            c.check("bincode.roundtrip-ok", false, &sg, || e.clone());
+        }
+    }
+}
+
 fn linear_search_t<T: Num>(c: &mut Case, sc: &Scen) {
     match c.index % 5 {
         0 => linear_d::<T, _>(c, sc, &|_| Euclidian {}, "Euclidian"),
@@ -1780,6 +1848,7 @@ fn main() {
             Family::new("pca", 800, 40000, pca),
             Family::new("truncated_svd", 480, 24000, truncated_svd),
             Family::new("cover_tree", 640, 32000, cover_tree),
+            Family::new("cover_deep", 60, 1500, cover_deep),
             Family::new("linear_search", 800, 40000, linear_search),
             Family::new("distances", 720, 36000, distances),
             Family::new("kernels", 480, 24000, kernels),
